@@ -149,3 +149,18 @@ def init (w : World) (p0 : Pol) (progs : Nat → List Call) : State :=
   { pol := p0, etag := w.tagOf p0, fn := p0, threads := fun i => { todo := progs i }, hist := [p0] }
 
 end Rbacx.Conc
+
+namespace Rbacx.Conc
+
+/-- the access order the model runs, in the vocabulary of the tracer (harness/extractors/guard_trace.py);
+    the updater's reads of the policy object it has just written are not shared steps -/
+def expectedEvalMiss : List String :=
+  ["acq", "rd _policy_gen", "rel", "rd policy_etag", "cache.get", "rd _compiled", "acq", "rd _policy_gen", "cache.set", "rel"]
+def expectedEvalHit : List String := ["acq", "rd _policy_gen", "rel", "rd policy_etag", "cache.get"]
+def expectedSetPolicy : List String :=
+  ["acq", "rd _policy_gen", "wr _policy_gen", "wr policy", "wr policy_etag", "wr _compiled", "cache.clear", "rel"]
+
+def ShapeOk (miss hit upd : List String) : Bool :=
+  miss == expectedEvalMiss && hit == expectedEvalHit && upd.filter (· != "rd policy") == expectedSetPolicy
+
+end Rbacx.Conc
